@@ -14,6 +14,7 @@ import (
 	"regexp"
 	"sort"
 	"strings"
+	"sync/atomic"
 	"time"
 
 	"github.com/folbricht/desync"
@@ -206,7 +207,7 @@ func run(c *harness.Ctx, i int) {
 		return
 	}
 	dir := c.CaseDir()
-	leg := []string{"library", "copy", "cli-default", "cli-datadog", "mixed", "streaming-frames"}[rng.Intn(6)]
+	leg := []string{"library", "copy", "cli-default", "cli-datadog", "mixed", "streaming-frames", "overlapping-writers"}[rng.Intn(7)]
 	uncompressed := rng.Intn(2) == 0
 	class := classes[rng.Intn(len(classes))]
 	want := map[desync.ChunkID][]byte{}
@@ -340,6 +341,69 @@ func run(c *harness.Ctx, i int) {
 		c.NonTrivial("%s|u%v|%s", leg, uncompressed, class)
 	case "mixed":
 		mixed(c, dir, store, uncompressed, want, order)
+	case "overlapping-writers":
+		// two clients of one directory store the same chunk at overlapping times: A (this format) is held between
+		// writing and publishing its file while B (other format, or the same) stores the chunk and returns. Both
+		// reported success, so both must find the chunk afterwards, each in its own format.
+		sameFormat := rng.Intn(4) == 0
+		a, _ := desync.NewLocalStore(store, desync.StoreOptions{Uncompressed: uncompressed})
+		b, _ := desync.NewLocalStore(store, desync.StoreOptions{Uncompressed: uncompressed != !sameFormat})
+		point := []string{"local.store.afterWrite", "local.store.beforeRename"}[rng.Intn(2)]
+		for _, id := range order {
+			var aG int64
+			parked := make(chan struct{}, 1)
+			release := make(chan struct{})
+			y := dsu.NewYielder(dsu.YieldTraced, uint64(rng.Int63()))
+			y.OnHit = func(p string, n int64) {
+				if p == point && dsu.Goid() == atomic.LoadInt64(&aG) {
+					select {
+					case parked <- struct{}{}:
+					default:
+					}
+					select {
+					case <-release:
+					case <-time.After(20 * time.Second):
+					}
+				}
+			}
+			y.Install()
+			done := make(chan error, 1)
+			go func() {
+				atomic.StoreInt64(&aG, dsu.Goid())
+				done <- a.StoreChunk(desync.NewChunk(want[id]))
+			}()
+			var errA error
+			aDone := false
+			select {
+			case <-parked:
+			case errA = <-done:
+				aDone = true
+			}
+			errB := b.StoreChunk(desync.NewChunk(want[id]))
+			close(release)
+			if !aDone {
+				errA = <-done
+			}
+			y.Remove()
+			if errA != nil || errB != nil {
+				c.Violation("overlapping-store-failed", "two clients storing chunk %s at overlapping times: %v / %v", id.String()[:10], errA, errB)
+				return
+			}
+			for k, st := range []desync.LocalStore{a, b} {
+				has, herr := st.HasChunk(id)
+				ch, gerr := st.GetChunk(id)
+				var data []byte
+				if gerr == nil {
+					data, gerr = ch.Data()
+				}
+				if !has || herr != nil || gerr != nil || !bytes.Equal(data, want[id]) {
+					c.Violation("stored-chunk-missing", "clients A (uncompressed=%v) and B (uncompressed=%v) both stored chunk %s successfully at overlapping times (A held at %s), afterwards client %d finds: HasChunk=%v (%v), GetChunk: %v", uncompressed, uncompressed != !sameFormat, id.String()[:10], point, k, has, herr, gerr)
+					return
+				}
+			}
+			c.Count("overlapping_stores", 1)
+		}
+		c.NonTrivial("%s|u%v|same%v|%s|%s", leg, uncompressed, sameFormat, point, class)
 	case "streaming-frames":
 		// chunk files written the way casync writes them: libzstd streaming API, size not announced (frame with a
 		// window descriptor instead of a content size). Both builds must read them.
